@@ -423,7 +423,7 @@ fn holder_history(ctx: &Ctx, case: u64, l: &mut Local) {
         l.evals += 1;
         if with_failures && r.chance(35) {
             let sel_ok = pipeline::random_selection(&mut r, &s.u);
-            let kind = r.below(12);
+            let kind = r.below(13);
             type A = (Value, Option<String>, Option<String>, Option<(Alg, usize)>, Option<String>);
             let args: A = match kind {
                 0 => (sel_ok.clone(), Some("n".into()), None, None, None),
@@ -435,6 +435,12 @@ fn holder_history(ctx: &Ctx, case: u64, l: &mut Local) {
                 5 => (sel_ok.clone(), Some(String::new()), Some(String::new()), None, None),
                 6 => (sel_ok.clone(), Some(String::new()), None, None, None),
                 7 => (sel_ok.clone(), None, Some(String::new()), None, None),
+                // complete key-binding arguments, well-known algorithm name that does not fit the key
+                // (fails late: after the disclosures were selected and the sd_hash was computed)
+                11 => {
+                    let hk = cfg.holder.unwrap_or((Alg::ES256, 1));
+                    (sel_ok.clone(), Some("n".into()), Some("a".into()), Some(hk), Some((*r.pick(&["RS256", "PS256", "HS256", "ES384", if hk.0 == Alg::ES256 { "EdDSA" } else { "ES256" }])).to_string()))
+                }
                 // a name that exists one level DOWN, asked for at the top level (where it does not exist)
                 10 => {
                     let nested: Option<String> = s.u.as_object().and_then(|m| m.values().filter_map(|v| v.as_object()).flat_map(|o| o.keys()).find(|k| !m.contains_key(*k)).cloned());
